@@ -125,6 +125,16 @@ def ng_cases():
                     parts = ([p] if p else []) + [ngf(b), t]
                     rules = [tok("X", cat(*parts)), tok("NUM", plus(cls(["0-9"]))), frag(lit(" "), ["discard"])]
                     out.append(spec("ng-%s-%s-%s-%s" % (pn, bn, tn, ngk), rules))
+    # bodies written as a class difference / through a macro; the rule inside a mode; two non-greedy rules sharing a prefix
+    out.append(spec("ng-cmt-diffbody-cmtend-starng", [tok("X", cat(lit("/*"), starng(cls(["a-z", "*", "/"], sub=["q"])), lit("*/"))), tok("NUM", plus(cls(["0-9"]))), frag(lit(" "), ["discard"])]))
+    out.append(spec("ng-cmt-macrobody-cmtend-starng", [tok("X", cat(lit("/*"), starng(ref("BODY")), lit("*/"))), tok("NUM", plus(cls(["0-9"]))), frag(lit(" "), ["discard"])],
+                    macros=[("BODY", alt(cls(["a-z"]), lit("*"), lit("/")))]))
+    out.append(spec("ng-lt-macrobody-aab-plusng", [tok("X", cat(lit("<"), plusng(ref("BODY")), lit("aab"))), tok("NUM", plus(cls(["0-9"]))), frag(lit(" "), ["discard"])],
+                    macros=[("BODY", cls(["a-b"]))]))
+    out.append(spec("ng-cmt-inmode-dot-cmtend-starng", [tok("X", lit("#")), tok("NUM", plus(cls(["0-9"]))), tok("O", lit("("), ["push", "M"]), frag(lit(" "), ["discard"])],
+                    modes=[("M", [tok("C", lit(")"), ["pop"]), tok("XM", cat(lit("/*"), starng(anyc()), lit("*/"))), tok("N2", plus(cls(["0-9"])))])]))
+    out.append(spec("ng-two-shared-prefix", [tok("X", cat(lit("<!"), starng(anyc()), lit("!>"))), tok("Y", cat(lit("<"), starng(cls(["a-z", "!", ">"])), lit(">"))),
+                                             tok("NUM", plus(cls(["0-9"])))]))
     # greedy neighbours overlapping the non-greedy rule's prefix, both declaration orders
     out.append(spec("ng-overlap-id-after", [tok("X", cat(lit("a"), starng(anyc()), lit("b"))), tok("ID", plus(cls(["a-z"])))]))
     out.append(spec("ng-overlap-id-before", [tok("ID", plus(cls(["a-z"]))), tok("X", cat(lit("a"), starng(anyc()), lit("b")))]))
